@@ -91,7 +91,7 @@ def gen_params(rng, nondefault):
         s6.update(p1=rng.choice([4.0, 2.0, 3.5]), p2=rng.choice([4.0, 2.0, 4.5]),
                   a1=rng.choice([4.75e-6, 1e-5]), a2=rng.choice([7e-5, 3e-5]),
                   saturation_threshold=rng.choice([0.035**2, 0.03**2, 0.0009]))
-        ro.update(saturation_breaking_constant=rng.choice([2.5, 1.5]), saturation_threshold=rng.choice([0.005, 0.003]),
+        ro.update(saturation_breaking_constant=rng.choice([2.5, 1.5]), saturation_threshold=rng.choice([0.005, 0.0002, 0.00005]),
                   saturation_integrated_threshold=rng.choice([0.0011, 0.0006]),
                   breaking_probability_constant=rng.choice([3.5e-5, 1e-4]),
                   gravitational_acceleration=gp["gravitational_acceleration"])
